@@ -307,8 +307,9 @@ def write(ctx, mod, wall, nviol):
         'assumptions': list(getattr(mod, 'ASSUMPTIONS', [])) + ctx.assumptions,
         'wall_s': round(wall, 1), 'violations': nviol,
     }
-    os.makedirs(os.path.join(VERIF, 'evidence'), exist_ok=True)
-    p = os.path.join(VERIF, 'evidence', f'{ctx.pid}.json')
+    edir = os.environ.get('VERIF_EVIDENCE_DIR') or os.path.join(VERIF, 'evidence')   # self-tests on scratch copies write elsewhere
+    os.makedirs(edir, exist_ok=True)
+    p = os.path.join(edir, f'{ctx.pid}.json')
     tmp = p + '.tmp'
     json.dump(ev, open(tmp, 'w'), indent=1, default=str)
     os.replace(tmp, p)
